@@ -57,7 +57,7 @@ RULE = ("cases = one call of da.map_blocks / da.blockwise / da.apply_gufunc desc
         "chunkings, and blockwise 'ij,jk->ik' (concatenate True and False) on all chunkings of (2,2)x(2,2). "
         "non-trivial = some array axis split into >=2 chunks; distinct = distinct case description.")
 ASSUMPTIONS = ["NumPy (slicing, einsum, vectorize) is the reference", "the recording functions are thread safe; sync scheduler, threads for a tenth"]
-BUDGET = {"quick": 40, "thorough": 500}
+BUDGET = {"quick": 60, "thorough": 600}
 # measured on the unchanged tree (quick, 5 seeds): 2444 evaluations, ~1850 distinct non-trivial, map_blocks 1212, blockwise 752,
 # gufunc 480, user function calls ~6500, received blocks ~10500-11600, block_id ~2100, block_info ~1970-2200, einsum ~240-270
 FLOORS = {"quick": {"evaluations": 1150, "distinct_nontrivial": 850,
